@@ -261,6 +261,13 @@ def registry_states():
     for need in ('thread', 'process', 'both', 'async_only'):
         for shut in ('thread', 'process'):
             out.append({'thread': 'ok', 'process': 'ok', 'need': need, 'then_shutdown': shut})
+    # other spellings of the same declarations: tags as plain strings; the execution mode set on a build_node()
+    # derivative through attrs={'tags': ...} while the generic base class is an ordinary thread node
+    for variant in ('str_tags', 'generic_attrs'):
+        for th in ('none', 'ok'):
+            for pr in ('none', 'ok'):
+                for need in ('process', 'both'):
+                    out.append({'thread': th, 'process': pr, 'need': need, 'variant': variant})
     return out
 
 
@@ -316,6 +323,14 @@ def state_main(stt):
     nodes = {'N0': dict(N('N0', 'async', []), plain_params=['x']), 'N1': N('N1', m1, ['N0']),
              'N2': N('N2', m2, ['N0']), 'N3': N('N3', 'async', ['N1', 'N2'])}
     prog = {'nodes': nodes, 'order': ['N0', 'N1', 'N2', 'N3'], 'input': 'N0', 'output': 'N3'}
+    if stt.get('variant') == 'str_tags':
+        nodes['N1']['tag_style'] = nodes['N2']['tag_style'] = 'str'
+    elif stt.get('variant') == 'generic_attrs':
+        # N2 = build_node(G2, attrs={'tags': (NodeTag.process,)}); G2 itself is a plain thread node
+        base = dict(copy.deepcopy(nodes['N2']), id='G2', generic_base=True, attrs_tags_base=True, nm=['custom', 'base_N2'])
+        nodes['G2'] = base
+        nodes['N2'].update(generic_of='G2', attrs_tags=True)
+        prog['order'] = ['N0', 'N1', 'G2', 'N2', 'N3']
     mod = materialize.load(prog)
     tf = tempfile.NamedTemporaryFile(prefix='rvstate', suffix='.log', dir=os.path.join(VERIF, '.work'), delete=False)
     tf.close()
